@@ -287,9 +287,10 @@ class Abort(Exception):
 
 # ------------------------------------------------------------------ interpreter
 class Interp:
-    def __init__(self, facts, models, max_depth=14, max_paths=4000, loop_unroll=40, sym_loop_unroll=2, on_site=None):
+    def __init__(self, facts, models, max_depth=14, max_paths=4000, loop_unroll=40, sym_loop_unroll=2, on_site=None, stubs=()):
         self.facts = facts
         self.models = models          # list of (compiled regex, handler)
+        self.stubs = [re.compile(x) for x in stubs]   # crate-local callees summarised as events (returning their receiver)
         self.max_depth = max_depth
         self.max_paths = max_paths
         self.loop_unroll = loop_unroll
@@ -855,6 +856,16 @@ class Interp:
                 d = v
             else:
                 return self._fork_all(st, targets, other, "discr of %r" % (v,))
+        if isinstance(d, Sym) and t.get("discr_ty") == "bool":
+            f = dict((val, bb) for val, bb in targets)
+            tf = f.get(0, other)
+            tt = f.get(1, other) if 1 in f else other
+            s2 = st.clone()
+            s2.refine[d.id] = BoolV(True)
+            s2.cond.append("%s" % d.name)
+            st.refine[d.id] = BoolV(False)
+            st.cond.append("!%s" % d.name)
+            return [(s2, tt), (st, tf)]
         if isinstance(d, BoolV):
             d = Aff(1 if d.b else 0)
         if isinstance(d, Aff) and d.is_const():
@@ -959,6 +970,12 @@ class Interp:
         info = {"name": name, "tdef": tdef, "def": rdef, "gargs": c.get("gargs", []), "ln": t["ln"], "fn": fr.body["id"], "file": fr.view.file(), "term": t}
         # crate-local body?
         body = self.facts.bodies.get(rdef)
+        for sp in self.stubs:
+            if sp.search(rdef) or sp.search(name):
+                from . import models as _MD
+                clean = re.sub(r"::<[^<>]*(<[^<>]*>[^<>]*)*>", "", rdef)
+                st.events.append(("::".join(clean.split("::")[-2:]), [_MD.str_key(self, st, a) if i > 0 else "self" for i, a in enumerate(args)]))
+                return [(st, "return", args[0] if args else UNIT)]
         for pat, h in self.models:
             if pat.search(tdef) or pat.search(name) or pat.search(rdef):
                 r = h(self, st, info, args, depth)
